@@ -157,6 +157,15 @@ class ServeHarness:
         finally:
             self.done.set()
 
+    def wait_ready(self, timeout=5.0):
+        """Wait until the server logged 'Running on ...' (listeners are accepting) or serve() ended."""
+        end = time.monotonic() + timeout
+        while time.monotonic() < end and not self.done.is_set():
+            if any(e[2] == "log" and "Running on" in str(e[4].get("text", "")) for e in self.trace.events):
+                return True
+            time.sleep(0.005)
+        return False
+
     def trigger_shutdown(self):
         self.trace.ev("client", "trigger-shutdown")
         self.stop.set()
